@@ -58,8 +58,11 @@ class Bins(SxContract):
                     s[b], s[b - 1] = s[b - 1], s[b]
                     b -= 1
             sorted_cuts.append(s)
-        return {"y": y, "binnings": list(m._all_binnings), "leaf": m._leaf, "softmax_args": list(self.rec.args),
-                "sorted_cuts": sorted_cuts}
+        res = {"y": y, "binnings": list(m._all_binnings), "leaf": m._leaf, "softmax_args": list(self.rec.args),
+               "sorted_cuts": sorted_cuts}
+        # the prediction-time pass (predict / predict_proba / score call _infer with retain=False) on the same parameters
+        res["y_predict"] = m._infer(inp["X"].copy(), retain=False)
+        return res
 
     def ensures(self, inp, out):
         n, K, X = self.n, self.K, inp["X"]
@@ -98,6 +101,13 @@ class Bins(SxContract):
             for k in range(1, K):
                 tot = tot + y[i, k]
             yield f"predict_proba row {i} sums to 1", prove.eq(tot, 1)
+        yp = out["y_predict"]
+        yield "prediction-time pass (retain=False): shape", prove.holds(getattr(yp, "shape", None) == (n, K))
+        if getattr(yp, "shape", None) == (n, K):
+            for i in range(n):
+                for k in range(K):
+                    yield (f"prediction-time pass (retain=False) == training-time pass on the same parameters [{i},{k}] (same bins, whatever the "
+                           "order the cut points are stored in)"), prove.eq(yp[i, k], y[i, k])
 
 
 class ActivePoints(SxContract):
